@@ -21,7 +21,9 @@ use crate::protocol::NetworkMessage;
 
 /// Decode a payload with the real protobuf decoder; `Some(canonical re-encoding)` if it decodes.
 pub fn decode_payload(bytes: &[u8]) -> Option<Vec<u8>> {
-    NetworkMessage::decode(bytes).ok().map(|m| m.encode_to_vec())
+    NetworkMessage::decode(bytes)
+        .ok()
+        .map(|m| m.encode_to_vec())
 }
 
 /// Frame a payload that decodes with the real `encode_network_message`.
